@@ -109,6 +109,7 @@ type c09Shape struct {
 	std   map[int]bool
 	alias2 bool // main imports file 1 under two aliases
 	sameBase bool // every imported file is called mod.tsh and lies in a directory of its own
+	names    []string // when set: the file names (index 0 is the main file)
 }
 
 func c09Shapes() []c09Shape {
@@ -129,6 +130,12 @@ func c09Shapes() []c09Shape {
 		{name: "fan2-same-basename", n: 3, edges: map[int][]int{0: {1, 2}}, sameBase: true},
 		{name: "chain3-same-basename", n: 3, edges: map[int][]int{0: {1}, 1: {2}}, sameBase: true},
 		{name: "diamond-same-basename", n: 4, edges: map[int][]int{0: {1, 2}, 1: {3}, 2: {3}}, sameBase: true},
+		// two importers in different directories write the same import path and mean different files
+		{name: "same-written-path", n: 5, edges: map[int][]int{0: {1, 2}, 1: {3}, 2: {4}}, names: []string{"main.tsh", "d1/a.tsh", "d2/b.tsh", "d1/util.tsh", "d2/util.tsh"}},
+		{name: "same-written-path-deep", n: 5, edges: map[int][]int{0: {1, 2}, 1: {3}, 2: {4}}, names: []string{"main.tsh", "p/q/a.tsh", "r/b.tsh", "p/q/lib/util.tsh", "r/lib/util.tsh"}},
+		// local files named like modules of the standard library, imported by path under an alias
+		{name: "local-named-like-std", n: 3, edges: map[int][]int{0: {1, 2}}, names: []string{"main.tsh", "strings.tsh", "sub/os.tsh"}},
+		{name: "local-named-like-std-next-to-importer", n: 3, edges: map[int][]int{0: {1}, 1: {2}}, names: []string{"main.tsh", "lib/a.tsh", "lib/strings.tsh"}},
 		{name: "both-import-std", n: 3, edges: map[int][]int{0: {1, 2}}, std: map[int]bool{0: true, 1: true, 2: true}},
 	}
 }
@@ -144,6 +151,9 @@ func (s c09Shape) build(salts map[int]int) *Program {
 		}
 		if s.sameBase {
 			names[k] = fmt.Sprintf("d%d/mod.tsh", k)
+		}
+		if s.names != nil {
+			names[k] = s.names[k]
 		}
 	}
 	// count in-degree to find files reached along several paths
